@@ -316,6 +316,37 @@ theorem query_values_are_escaped (v : Bytes) :
       · exact Or.inl (hexDigits_alnum x).1
       · exact Or.inl (hexDigits_alnum x).2
 
+/-! ### the consumers (map, headers, rewrite modifiers): see `Consumers.lean` for their theorems -/
+
+/-- the total wrappers the consumer models use ARE `ReplaceAll(·, "")` / `ReplaceKnown(·, "")`: their
+    fallback value is never taken (the replacer neither panics nor runs out of fuel, and these two entry
+    points drop errors) -/
+theorem expandAll_exact (env : Env) (t : Bytes) : replaceAll t [] env = .ok (expandAll env t) := by
+  have h1 := replace_never_panics t env ⟨[], true, false, false, none⟩
+  have h2 := replace_never_runs_out_of_fuel t env ⟨[], true, false, false, none⟩
+  unfold expandAll replaceAll at *
+  cases h : replace t env ⟨[], true, false, false, none⟩ <;> simp_all [outOrEmpty]
+
+theorem expandKnown_exact (env : Env) (t : Bytes) : replaceKnown t [] env = .ok (expandKnown env t) := by
+  have h1 := replace_never_panics t env ⟨[], false, false, false, none⟩
+  have h2 := replace_never_runs_out_of_fuel t env ⟨[], false, false, false, none⟩
+  unfold expandKnown replaceKnown at *
+  cases h : replace t env ⟨[], false, false, false, none⟩ <;> simp_all [outOrEmpty]
+
+/-- **provider rows hand request text over untouched.** What the header / query-parameter / path /
+    `http.vars.` rows of the modelled provider chain return is the request's bytes; the `file.` provider
+    returns the file's bytes minus one trailing newline, and an unreadable file is known and empty. -/
+theorem provider_rows_are_verbatim (r : HttpReq) :
+    cEnv r (str "http.request.header.X-In") = some r.hdrXIn ∧
+    cEnv r (str "http.request.uri.query.q") = some r.queryQ ∧
+    cEnv r (str "http.request.uri.path") = some r.path ∧
+    cEnv r (str "http.vars.v") = some r.varV ∧
+    cEnv r (str "env.VERIF_C18_SECRET") = some r.secret ∧
+    cEnv r (str "file.c18crlf.txt") = some (str "CRLF-F1LE") ∧
+    cEnv r (str "file.no-such-file") = some [] ∧
+    cEnv r (str "zz.unk") = none := by
+  refine ⟨?_, ?_, ?_, ?_, ?_, ?_, ?_, ?_⟩ <;> set_option maxRecDepth 100000 in rfl
+
 /-- **regenerated tie.** The model's "give up after more than 100 unclosed placeholders" is the
     constant the extractor reads out of replacer.go on every run (`Gen/Consts.lean`). -/
 theorem unclosed_limit_matches_source : Gen.replacerUnclosedLimit = some 100 := by decide
